@@ -151,5 +151,5 @@ def phases(tier):
   big = tier == 'thorough'
   return [
       {'name': 'sharing', 'kind': 'hyp', 'strategy': lambda: cases(tier),
-       'run': check_case, 'examples': int((40000 if big else 2500) * k)},
+       'run': check_case, 'examples': int((120000 if big else 2500) * k)},
   ]
